@@ -152,10 +152,9 @@ inductive Exc where
 
 /-- `_add_integer_constant(name, int_str)`: the value bound to `name`. -/
 def addIntegerConstant (v : List Char) : Except Exc Int :=
-  let (neg, s) := body v
-  match pyInt 0 (octalRewrite s) with       -- try: int(int_str, 0)
-  | none => .error .cdefError               -- except ValueError: raise CDefError
-  | some pyvalue => .ok (if neg then -pyvalue else pyvalue)
+  match pyInt 0 (octalRewrite (body v).2) with       -- try: int(int_str, 0)
+  | none => .error .cdefError                        -- except ValueError: raise CDefError
+  | some pyvalue => .ok (if (body v).1 then -pyvalue else pyvalue)
 
 /-- Result of one `#define`: an integer, the literal `...`, or the error. -/
 inductive MacroVal where
